@@ -227,6 +227,11 @@ def runOp : P String := do
   | "HPHI" =>
     let x ← pFloat
     pure ("OK " ++ toHex (HP.toFloat (HP.Phi 128 (HP.ofFloat x))))
+  | "NUMLE" =>
+    -- Python's exact mixed int/float comparison as modelled by PyNum.le
+    let a ← pNum
+    let b ← pNum
+    pure (if PyNum.le a b then "True" else "False")
   | "SUMQ" =>
     -- the literal (dict-shaped) model of PlackettLuce._sum_q on a list of (rank, mu) with a given c
     let c ← pFloat
